@@ -5,7 +5,8 @@ REGISTRY: list = []
 
 
 class Harness:
-    def __init__(self, fn, prop, name, cases, tier, float_mode, subst, feas_ms, check_ms, kind, fp_refute, quick=None, state_only=False, budget_s=None, stubs=None):
+    def __init__(self, fn, prop, name, cases, tier, float_mode, subst, feas_ms, check_ms, kind, fp_refute, quick=None, state_only=False, budget_s=None, stubs=None, vacuous_ok=None):
+        self.vacuous_ok = vacuous_ok  # predicate over a case: an empty domain is legitimate there (reported)
         self.stubs = stubs or {}  # environment-boundary callees replaced by their contract in BOTH modes
         self.fn = fn
         self.prop = prop
@@ -35,9 +36,9 @@ class Harness:
 
 def harness(prop, name=None, cases=None, tier="quick", float_mode="real", subst=None,
             feas_ms=1500, check_ms=20000, kind="contract", fp_refute=False, quick=None,
-            state_only=False, budget_s=None, stubs=None):
+            state_only=False, budget_s=None, stubs=None, vacuous_ok=None):
     def deco(fn):
-        h = Harness(fn, prop, name, cases, tier, float_mode, subst, feas_ms, check_ms, kind, fp_refute, quick, state_only, budget_s, stubs)
+        h = Harness(fn, prop, name, cases, tier, float_mode, subst, feas_ms, check_ms, kind, fp_refute, quick, state_only, budget_s, stubs, vacuous_ok)
         REGISTRY.append(h)
         fn.__harness__ = h
         return fn
